@@ -297,15 +297,28 @@ class Pipeline(Harness):
              'mac': ['hmac-sha2-256', inp['names']['mac']]}
         if changed and self.field in FIELDS:
             L[self.field] = [inp['other'] if x is inp['names'][self.field] else x for x in L[self.field]]
-        if self.field == 'gex':
-            # the server offers group exchange and hands out one modulus size to every request (2048 bits; 3072 after the drift)
-            L['kex'] = L['kex'] + ['diffie-hellman-group-exchange-sha256']
+        if self.field in ('gex', 'gex-strict', 'keyorder'):
             S = AE.sshstr
-            bits = 3072 if changed else 2048
+            L['kex'] = L['kex'] + ['diffie-hellman-group-exchange-sha256']
+            if self.field == 'keyorder':
+                # a host certificate type listed before (after the drift: after) a plain type; the group-exchange probes reconnect with the peer's own host-key list
+                cert = 'ssh-ed25519-cert-v01@openssh.com'
+                L['key'] = ([L['key'][0], cert] + L['key'][1:]) if changed else ([cert] + L['key'])
+            bits = 3072 if (changed and self.field != 'keyorder') else 2048
             pb = b'\x00' + b'\x80' + b'\x00' * (bits // 8 - 2) + b'\x01'
             pk = AE.frame(AE.kexinit_payload(L['kex'], L['key'], L['enc'], L['mac']))
-            gex = [AE.Conn([BANNER, pk, AE.frame(bytes([31]) + S(pb) + S(b'\x02')), AE.frame(bytes([33]) + S(b'hostkey') + S(b'\x05') + S(b'sig'))]) for _ in range(9)]
-            return AE.FakeNet([AE.Conn([BANNER, pk])] + gex, default_end='close')
+            group = lambda: AE.Conn([BANNER, pk, AE.frame(bytes([31]) + S(pb) + S(b'\x02')), AE.frame(bytes([33]) + S(b'hostkey') + S(b'\x05') + S(b'sig'))])
+            refuse = lambda: AE.Conn([BANNER, pk, AE.frame(bytes([1]) + AE.u32(11) + S(b'no matching DH group found') + S(b''))], 'close')
+            nprobe_hk = 1 if self.field == 'keyorder' else 0          # the certificate type is probed (unanswered) before the group-exchange probes
+            hk = [AE.Conn([BANNER, pk], 'close') for _ in range(nprobe_hk)]
+            if self.field == 'gex-strict':
+                # a strict server: it owns exactly one group and refuses every request whose window does not hold it (first the wide 512..1536 request, then the
+                # exact sizes below its group)
+                nref = 5 if bits == 2048 else 6
+                gex = [refuse() for _ in range(nref)] + [group() for _ in range(4)]
+            else:
+                gex = [group() for _ in range(9)]
+            return AE.FakeNet([AE.Conn([BANNER, pk])] + hk + gex, default_end='close')
         pk = AE.frame(AE.kexinit_payload(L['kex'], L['key'], L['enc'], L['mac']))
         return AE.FakeNet([AE.Conn([BANNER, pk])], default_end='close')
 
@@ -369,7 +382,7 @@ class Pipeline(Harness):
         yield 'policy-file-written', not isinstance(obs['make'], Exc) and obs['written']
         if 'eval' not in obs:
             return
-        if self.field == 'gex':
+        if self.field in ('gex', 'gex-strict', 'keyorder'):
             yield 'policy-records-the-measured-modulus-size(reachability)', obs['has_dh']
         yield 'policy-run-completes', not isinstance(obs['eval'], Exc)
         if isinstance(obs['eval'], Exc):
@@ -456,7 +469,7 @@ def tasks(tier):
     for n, nopt, sizes in ([(1, 0, False), (1, 1, False), (2, 2, True), (2, 0, True)] if q else
                            [(1, 0, False), (1, 1, False), (2, 2, True), (2, 0, True), (3, 1, True), (2, 3, False), (3, 2, True)]):
         T.append(BuiltinShape(n, nopt, sizes))
-    for f in list(FIELDS) + ['gex']:
+    for f in list(FIELDS) + ['gex', 'gex-strict', 'keyorder']:
         T.append(Pipeline(f, False))
         T.append(Pipeline(f, True))
     T.append(builtins_concrete)
